@@ -330,6 +330,10 @@ Proof. exact AnyProgProofs.new_prog_correct. Qed.
 Theorem unpack_prog_correct : AnyProg.unpack_prog_stmt.
 Proof. exact AnyProgProofs.unpack_prog_correct. Qed.
 
+(* Unpack as written before /repo commit d0c621d is what [unpack_gen false] (theorem before_fix_panics) models *)
+Theorem unpack_before_fix_prog_correct : AnyProg.unpack_before_fix_prog_stmt.
+Proof. exact AnyProgProofs.unpack_before_fix_prog_correct. Qed.
+
 (* a run of the translated MarshalFrom that does not return nil leaves the destination Any as it was *)
 Theorem marshal_from_prog_fail_untouched : forall (msg desc opts : Type) (dname : desc -> str) (descr_of : msg -> desc)
     (marshal : opts -> msg -> outcome (list byte)) (unmarshal : bool -> desc -> list byte -> outcome msg) (default_opts : opts)
